@@ -166,3 +166,9 @@ Definition listener_adapter_ok (r : string * list string * list string) : bool :
   | [f], [b1; b2] => String.eqb f "inner" && String.eqb b1 "self.inner.on_change(value.into())" && String.eqb b2 "MaybeAsync::ready(())"
   | _, _ => false
   end.
+
+(* ---------- enable / disable through the C ABI ---------- *)
+(* Ok means the setting was queued for the channel task (the Rust API's Channel::enable / disable return after the
+   command is in the queue): FfiChannel keeps no state of its own and enable / disable are exactly the try_send *)
+Definition ffi_settings_spec : list (string * list string) :=
+  [("enable", ["self.send(Command::Setting(Setting::Enable))"]); ("disable", ["self.send(Command::Setting(Setting::Disable))"])].
